@@ -414,10 +414,48 @@ class ExprGen:
             rr = self.pow_exp()
         elif op in ("==", "!=") and r.random() < 0.3:
             l, rr = self.text_pair()
+        elif op in ("==", "!=", "<", "<=", ">", ">=") and r.random() < 0.3:
+            l, rr = self.near_pair()
         else:
             l = self.sub(depth - 1, op, intclass=intclass)
             rr = self.sub(depth - 1, op, intclass=intclass, right=True)
         return ("bin", op, l, rr)
+
+    def near_pair(self):
+        """two operands of a comparison whose values are equal or one apart, written in different numeric kinds
+        (unsigned / signed / real): equality across kinds is where a comparison goes wrong first"""
+        r = self.r
+        v = r.choice([0, 1, -1, 2, -2, 3, -4, 5, -7, 12, -12, 50, -50, 1000, -1000])
+        v += r.choice([0, 0, 0, 1, -1])
+
+        def spell(x, kind):
+            if kind == "int":  # literal, or a difference (signed result)
+                if r.random() < 0.5:
+                    return ("num", str(x), x) if x >= 0 else ("par", ("num", str(x), x))
+                a = r.randint(0, 20)
+                return ("par", ("bin", "-", ("num", str(x + a), x + a) if x + a >= 0 else ("par", ("num", str(x + a), x + a)), ("num", str(a), a)))
+            if kind == "real":  # a quotient (always real), or a decimal literal
+                if r.random() < 0.6:
+                    d = r.choice([2, 4, 5])
+                    n = x * d
+                    return ("par", ("bin", "/", ("num", str(n), n) if n >= 0 else ("par", ("num", str(n), n)), ("num", str(d), d)))
+                t = "%d.0" % x
+                return ("num", t, float(x)) if x >= 0 else ("par", ("num", t, float(x)))
+            # half: a real that is exactly representable and not integral
+            t = "%d.5" % abs(x)
+            val = float(t) if x >= 0 else -float(t)
+            return ("num", t, val) if x >= 0 else ("par", ("num", "-" + t, val))
+
+        w = v + r.choice([0, 0, 0, 1, -1])
+        kl, kr = r.choice(["int", "real", "half"]), r.choice(["int", "real", "half"])
+        return spell(v, kl), spell(w, kr)
+
+    def whole(self, depth):
+        """a complete expression; one in eight is wrapped in one outer pair of parentheses (a separate path in the engine)"""
+        e = self.tree(depth)
+        if e[0] == "bin" and self.r.random() < 0.125:
+            e = ("par", e)
+        return e
 
     def sub(self, depth, parent, intclass=False, nonneg=False, right=False):
         """operand of `parent`; parenthesised whenever the documentation leaves the grouping open"""
